@@ -374,8 +374,16 @@ reg(r'std::option::Option::<&.*>::(copied|cloned)', lambda it, o: SOME(it.clone(
 @model(r'std::option::Option::<.*>::take')
 def m_opt_take(it, r):
     old = r.get(); r.set(NONE()); return old
-@model(r'std::option::Option::<.*>::(insert|get_or_insert_with)::?<?.*>?')
-def m_opt_insert(it, r, v): raise Unsupported('Option::insert')
+@model(r'std::option::Option::<.*>::(get_or_insert|insert)')
+def m_opt_get_or_insert(it, r, v):
+    r = root_ref(r) if isinstance(r.get(), Ref) else r
+    if r.get().variant != 1: r.set(SOME(v))
+    return Ref(r.box, r.path + (0,))
+@model(r'std::option::Option::<.*>::get_or_insert_with::<.*>')
+def m_opt_get_or_insert_with(it, r, clo):
+    r = root_ref(r) if isinstance(r.get(), Ref) else r
+    if r.get().variant != 1: r.set(SOME(it.call_closure(clo)))
+    return Ref(r.box, r.path + (0,))
 reg(r'<std::option::Option<.*> as std::default::Default>::default', lambda it: NONE())
 reg(r'<std::result::Result<.*> as std::ops::Try>::branch', lambda it, r: Adt(0, [r.fields[0]]) if r.variant == 0 else Adt(1, [ERR(r.fields[0])]))
 reg(r'<std::option::Option<.*> as std::ops::Try>::branch', lambda it, r: Adt(0, [r.fields[0]]) if r.variant == 1 else Adt(1, [NONE()]))
